@@ -40,6 +40,42 @@ impl Buf {
     }
 }
 
+/// Runs `f` on a copy of `blocks` that starts `off` bytes (0..64) past a 64-byte aligned address, then
+/// copies the result back. `[u8; 64]` has alignment 1, so the public primitives must work at any address.
+pub fn at_offset<T>(blocks: &mut [[u8; 64]], off: usize, f: impl FnOnce(&mut [[u8; 64]]) -> T) -> T {
+    if off == 0 {
+        return f(blocks);
+    }
+    let n = blocks.len();
+    let mut raw = vec![0u8; n * 64 + 128];
+    let base = raw.as_ptr() as usize;
+    let start = (64 - base % 64) % 64 + off % 64;
+    raw[start..start + n * 64].copy_from_slice(blocks.as_flattened());
+    // SAFETY: the range start..start + n*64 lies inside `raw`, [u8; 64] has alignment 1 and any bit pattern is valid
+    let view: &mut [[u8; 64]] = unsafe { std::slice::from_raw_parts_mut(raw.as_mut_ptr().add(start) as *mut [u8; 64], n) };
+    let out = f(view);
+    blocks.as_flattened_mut().copy_from_slice(&raw[start..start + n * 64]);
+    out
+}
+
+pub fn xform_at(eng: Eng, which: Xform, buf: &mut Buf, off: usize, pos: usize, size: usize, trunc: usize, skew_delta: usize) {
+    let (n, blocks) = (buf.n, buf.blocks);
+    at_offset(&mut buf.data, off, |data| {
+        with_engine!(eng, E, {
+            let e = <E as Mk>::mk();
+            let mut s = ShardsRefMut::new(n, blocks, data);
+            match which {
+                Xform::Fft => e.fft(&mut s, pos, size, trunc, skew_delta),
+                Xform::Ifft => e.ifft(&mut s, pos, size, trunc, skew_delta),
+            }
+        })
+    })
+}
+
+pub fn mul_at(eng: Eng, x: &mut [[u8; 64]], off: usize, log_m: u16) {
+    at_offset(x, off, |data| mul(eng, data, log_m))
+}
+
 pub fn xform(eng: Eng, which: Xform, buf: &mut Buf, pos: usize, size: usize, trunc: usize, skew_delta: usize) {
     let (n, blocks) = (buf.n, buf.blocks);
     with_engine!(eng, E, {
